@@ -573,7 +573,7 @@ fn pattern(n: u32) -> BigInt {
 }
 
 /// The i128 boundary lattice: (value, level). level 0 = core, 1 = all structured values + every
-/// 8th bit length, 2 = every 4th bit length, 3 = every bit length. Sorted simplest first.
+/// 16th bit length, 2 = every 4th bit length, 3 = every bit length. Sorted simplest first.
 fn lattice128() -> Vec<(i128, u8)> {
     let m: std::cell::RefCell<BTreeMap<i128, u8>> = Default::default();
     let put = |v: i128, l: u8| {
@@ -620,7 +620,7 @@ fn lattice128() -> Vec<(i128, u8)> {
         let v = fit128(&pattern(n)).unwrap();
         let l = if matches!(n, 20 | 50 | 80 | 100 | 120) {
             0
-        } else if n % 8 == 0 {
+        } else if n % 16 == 0 {
             1
         } else if n % 4 == 0 {
             2
@@ -772,6 +772,8 @@ fn enumerate(tier: Tier) -> Tally {
     let lat = |lvl: u8| -> Vec<i128> { l128.iter().filter(|(_, l)| *l <= lvl).map(|(v, _)| *v).collect() };
     let lc = lat(sz.lvl_checked);
     let lp: std::collections::BTreeSet<i128> = lat(sz.lvl_panicking).into_iter().collect();
+    // later families skip inputs that an earlier family already evaluated (counts are of distinct inputs)
+    let lcs: std::collections::BTreeSet<i128> = lc.iter().copied().collect();
     println!(
         "i128 lattice: {} values (checked variants), {} values (panicking variants), {} in total",
         lc.len(),
@@ -800,7 +802,7 @@ fn enumerate(tier: Tier) -> Tally {
                 let base = n / &t;
                 for delta in [-1i32, 0, 1] {
                     if let Some(d) = fit128(&(&base + delta)) {
-                        if d != 0 && !out.iter().any(|(o, _)| *o == d) {
+                        if d != 0 && !lcs.contains(&d) && !out.iter().any(|(o, _)| *o == d) {
                             out.push((d, pxy));
                         }
                     }
@@ -813,7 +815,10 @@ fn enumerate(tier: Tier) -> Tally {
     let r = range(sz.small);
     let small_pairs = cross(&r, &r);
     total = total.merge(timed(&format!("i128 all |x|,|y|,|d| <= {}", sz.small), || {
-        run_i128(&small_pairs, |_, _, _, out| out.extend(r.iter().map(|&d| (d, true))))
+        run_i128(&small_pairs, |x, y, _, out| {
+            let xy = lcs.contains(&x) && lcs.contains(&y);
+            out.extend(r.iter().filter(|d| !(xy && lcs.contains(d))).map(|&d| (d, true)))
+        })
     }));
 
     // F4: small triples lifted into the I256 fallback path: x = a*2^63, y = b*2^65, d = c*2^120
@@ -822,19 +827,25 @@ fn enumerate(tier: Tier) -> Tally {
     let rl = range(sz.lifted);
     let lifted_pairs: Vec<(i128, i128)> = cross(&rl, &rl).into_iter().map(|(a, b)| (a << 63, b << 65)).collect();
     total = total.merge(timed(&format!("i128 lifted (a*2^63, b*2^65, c*2^120), |a|,|b|,|c| <= {}", sz.lifted), || {
-        run_i128(&lifted_pairs, |_, _, _, out| out.extend(rl.iter().map(|&c| (c << 120, true))))
+        run_i128(&lifted_pairs, |x, y, _, out| {
+            let xy = lcs.contains(&x) && lcs.contains(&y);
+            out.extend(rl.iter().map(|&c| c << 120).filter(|d| !(xy && lcs.contains(d))).map(|d| (d, true)))
+        })
     }));
 
     // F5: all (r, z) with |r|,|z| <= rz: (r, 1, z) natively, and all |r|,|z| <= rz_wide as
-    // (r*2^62, +-2^66, z*2^118) through the widened path (quotient +-r*2^10 / z)
+    // (r*2^62, +-(2^66+1), z*2^118) through the widened path (quotient ~ +-r*2^10 / z)
     let rr = range(sz.rz);
     let rz_pairs: Vec<(i128, i128)> = rr.iter().map(|&r| (r, 1i128)).collect();
     total = total.merge(timed(&format!("i128 all (r, 1, z) with |r|,|z| <= {}", sz.rz), || {
-        run_i128(&rz_pairs, |_, _, _, out| out.extend(rr.iter().map(|&z| (z, true))))
+        run_i128(&rz_pairs, |r, _, _, out| {
+            let (rl, rs) = (lcs.contains(&r), r.abs() <= sz.small);
+            out.extend(rr.iter().filter(|z| !(rl && lcs.contains(z)) && !(rs && z.abs() <= sz.small)).map(|&z| (z, true)))
+        })
     }));
     let rw = range(sz.rz_wide);
-    let rzw_pairs: Vec<(i128, i128)> = rw.iter().flat_map(|&r| [(r << 62, 1i128 << 66), (r << 62, -(1i128 << 66))]).collect();
-    total = total.merge(timed(&format!("i128 widened (r*2^62, +-2^66, z*2^118), |r|,|z| <= {}", sz.rz_wide), || {
+    let rzw_pairs: Vec<(i128, i128)> = rw.iter().flat_map(|&r| [(r << 62, (1i128 << 66) + 1), (r << 62, -(1i128 << 66) - 1)]).collect();
+    total = total.merge(timed(&format!("i128 widened (r*2^62, +-(2^66+1), z*2^118), |r|,|z| <= {}", sz.rz_wide), || {
         run_i128(&rzw_pairs, |_, _, _, out| out.extend(rw.iter().map(|&z| (z << 118, true))))
     }));
 
@@ -868,8 +879,12 @@ fn enumerate(tier: Tier) -> Tally {
                 let mut t = Tally::default();
                 let (x, y) = (BigInt::from(r) << 100u32, BigInt::from(y));
                 let n = &x * &y;
+                let xy = l256.contains(&x) && l256.contains(&y);
                 for &z in &r256 {
                     let d = BigInt::from(z) << 90u32;
+                    if xy && l256.contains(&d) {
+                        continue;
+                    }
                     eval_i256(slot, &x, &y, &d, &n, &mut t, false);
                 }
                 t
@@ -902,7 +917,8 @@ fn enumerate(tier: Tier) -> Tally {
     }
     ws.sort_by_key(|x| (x.unsigned_abs(), *x < 0));
     ws.dedup();
-    let ws_pairs = cross(&ws, &ws);
+    let lws: std::collections::BTreeSet<i128> = lw.iter().copied().collect();
+    let ws_pairs: Vec<(i128, i128)> = cross(&ws, &ws).into_iter().filter(|(a, b)| !(lws.contains(a) && lws.contains(b))).collect();
     total = total.merge(timed("Wad decimal neighbourhood^2 x {mul, div, ratio}", || {
         ws_pairs
             .par_iter()
@@ -1049,6 +1065,10 @@ fn main() {
         rep.extra("outcomes", json!(outcomes));
         rep.extra("counters", json!(counters));
         rep.extra("distinct_inputs", json!(total.inputs));
+        rep.extra(
+            "explanation",
+            json!("every evaluation is one call of a real library function inside a native soroban Env whose outcome (value / None / caught panic) was compared with the exact big-integer reference; distinct_inputs = distinct (function family, operands) tuples, each evaluated for every rounding and variant; later families skip inputs that an earlier family already covered"),
+        );
         for s in samples {
             rep.sample(s);
         }
